@@ -601,6 +601,16 @@ fn cmd_markdown() -> (u64, Vec<String>) {
         ("unterminated front-matter (must be an error)", "---\nfoo\n\n```scrut\n$ echo a\na\n```\n".to_string(), 99),
         ("unterminated fence after a complete block (must be an error)", "```scrut\n$ echo a\na\n```\n\n```scrut\n$ echo b\n".to_string(), 99),
         ("plain", "# t\n\n```scrut\n$ echo a\na\n```\n".to_string(), 1),
+        // white space at the end of a fence line is not part of the language / of the configuration
+        ("blank after the language", "# T\n\n```scrut \n$ echo a\n```\n".to_string(), 1),
+        ("tab after the language", "```scrut\t\n$ echo a\n```\n".to_string(), 1),
+        ("blank after the inline configuration", "```scrut {timeout: 3s} \n$ echo a\n```\n".to_string(), 1),
+        ("blank after the closing fence", "# T\n\n```scrut\n$ echo a\n``` \n\n```scrut\n$ echo b\n```\n".to_string(), 2),
+        ("CRLF line endings", "```scrut\r\n$ echo a\r\n```\r\n".to_string(), 1),
+        // a scrut block inside a longer fence without language is not a test (the block without language is an error)
+        ("scrut block inside a bare four-backtick fence", "````\n```scrut\n$ echo a\n```\n````\n".to_string(), 99),
+        ("scrut block inside a four-backtick markdown fence", "````markdown\n```scrut\n$ echo a\n```\n````\n\n```scrut\n$ echo b\n```\n".to_string(), 1),
+        ("title after a code block of another language", "Title A\n```bash\nx\n```\nMore\n```scrut\n$ echo a\n```\n".to_string(), 1),
     ];
     let mut n = 0;
     let mut bad = vec![];
@@ -615,6 +625,12 @@ fn cmd_markdown() -> (u64, Vec<String>) {
             Ok(Ok((_, tcs))) => {
                 if tcs.len() != want {
                     bad.push(format!("{{\"why\":\"C06: {} test cases, expected {}\",\"doc\":{},\"name\":{}}}", tcs.len(), want, jstr(&doc), jstr(name)));
+                }
+                if name == "blank after the inline configuration" && tcs.len() == 1 && tcs[0].config.timeout != Some(std::time::Duration::from_secs(3)) {
+                    bad.push(format!("{{\"why\":\"C06: the inline configuration {{timeout: 3s}} is read as timeout {:?}\",\"doc\":{},\"name\":{}}}", tcs[0].config.timeout, jstr(&doc), jstr(name)));
+                }
+                if name == "title after a code block of another language" && tcs.len() == 1 && tcs[0].title != "More" {
+                    bad.push(format!("{{\"why\":{},\"doc\":{},\"name\":{}}}", jstr(&format!("C06: title {:?}, the nearest preceding paragraph is \"More\"", tcs[0].title)), jstr(&doc), jstr(name)));
                 }
             }
         }
@@ -959,7 +975,10 @@ fn cmd_c19(n: usize) -> (u64, Vec<String>) {
         b"foo\t\n".to_vec(), b"a\nb\nc\n".to_vec(), b"no newline".to_vec(), b"\xff\xfe\n".to_vec(), b"\x1b[1mbold\x1b[0m\n".to_vec(), "\u{1f600} \n".as_bytes().to_vec(), b"\n\n".to_vec(),
         "tr\u{e4}iling\u{2003}\n".as_bytes().to_vec(), b"x\r\n".to_vec(),
         (1..=10).map(|i| format!("l{i}\n")).collect::<String>().into_bytes(), (1..=100).map(|i| format!("l{i}\n")).collect::<String>().into_bytes()];
-    let expectation_sets: Vec<Vec<&str>> = vec![vec![], vec!["foo"], vec!["bar"], vec!["bar\u{a0}"], vec!["a", "x", "c"], vec!["foo (?)", "zzz (*)"], vec!["foo* (glob)"]];
+    let expectation_sets: Vec<Vec<&str>> = vec![vec![], vec!["foo"], vec!["bar"], vec!["bar\u{a0}"], vec!["a", "x", "c"], vec!["foo (?)", "zzz (*)"], vec!["foo* (glob)"],
+        // more expectations than shown in the diff: nine optional ones that match nothing (left out of the diff), then a required one (number 10: two digits)
+        vec!["maybe 1 (?)", "maybe 2 (?)", "maybe 3 (?)", "maybe 4 (?)", "maybe 5 (?)", "maybe 6 (?)", "maybe 7 (?)", "maybe 8 (?)", "maybe 9 (?)", "required"],
+        vec!["o1 (?)", "o2 (?)", "o3 (?)", "o4 (?)", "o5 (?)", "o6 (?)", "o7 (?)", "o8 (?)", "o9 (?)", "o10 (?)", "o11 (?)", "foo", "required"]];
     let renderers: Vec<(&str, Box<dyn Renderer>)> = vec![("pretty", Box::new(PrettyColorRenderer::default())), ("pretty-mono", Box::new(PrettyMonochromeRenderer::new(PrettyColorRenderer::default()))),
         ("diff", Box::new(DiffRenderer::new())), ("json", Box::new(JsonRenderer::new(false))), ("yaml", Box::new(YamlRenderer::new()))];
     std::panic::set_hook(Box::new(|_| {}));
